@@ -35,11 +35,13 @@ pub enum Quirk {
     AggJsonText,
     /// avg / sum / min / max ignore rows lacking the field instead of using the default
     AggregateRaw,
+    /// the default of a Json field is rendered as a JSON string instead of the JSON value
+    JsonDefaultAsString,
     /// order_by (and paging) on a model field name use the raw stored value instead of the value with default
     OrderRaw,
 }
 
-pub const ALL_QUIRKS: [Quirk; 11] = [
+pub const ALL_QUIRKS: [Quirk; 12] = [
     Quirk::EntityFilterUnselected,
     Quirk::GroupByRaw,
     Quirk::GroupBySystemIgnored,
@@ -50,6 +52,7 @@ pub const ALL_QUIRKS: [Quirk; 11] = [
     Quirk::ExplicitNullNoDefault,
     Quirk::AggJsonText,
     Quirk::AggregateRaw,
+    Quirk::JsonDefaultAsString,
     Quirk::OrderRaw,
 ];
 
@@ -66,6 +69,7 @@ impl Quirk {
             Quirk::ExplicitNullNoDefault => "explicit-null-hides-default",
             Quirk::AggJsonText => "aggregate-uses-json-text",
             Quirk::AggregateRaw => "aggregate-ignores-default",
+            Quirk::JsonDefaultAsString => "json-default-rendered-as-string",
             Quirk::OrderRaw => "order-by-ignores-default",
         }
     }
@@ -286,17 +290,20 @@ impl<'a> Evaluator<'a> {
                 if display && self.quirks.has(Quirk::ExplicitNullNoDefault) {
                     (J::Null, false)
                 } else {
-                    self.default_json(f)
+                    self.default_json(f, display)
                 }
             }
             Some(v) => (v.clone(), false),
-            None => self.default_json(f),
+            None => self.default_json(f, display),
         }
     }
 
-    fn default_json(&self, f: &FieldRef) -> (J, bool) {
+    fn default_json(&self, f: &FieldRef, display: bool) -> (J, bool) {
         match &f.default {
             Some(Lit::Bool(b)) => (J::Bool(*b), true),
+            Some(Lit::Str(s)) if f.ty == Ty::Json && display && self.quirks.has(Quirk::JsonDefaultAsString) => {
+                (J::String(s.clone()), false)
+            }
             Some(Lit::Str(s)) if f.ty == Ty::Json => (serde_json::from_str(s).unwrap_or(J::Null), false),
             Some(l) => (l.json(), false),
             None => (J::Null, false),
@@ -619,17 +626,20 @@ impl<'a> Evaluator<'a> {
         }
     }
 
+    /// None: the field is not part of the grouping
     fn group_value(&self, n: &NodeRow, s: &RSel) -> Option<SqlVal> {
         match s {
             RSel::Scalar { f, .. } => {
+                if f.ty == Ty::Base64 && self.quirks.has(Quirk::GroupByBase64Ignored) {
+                    // binary fields (id, room_id, verifying_key, Base64 fields) are left out of GROUP BY
+                    return None;
+                }
                 if f.system {
                     if self.quirks.has(Quirk::GroupBySystemIgnored) {
-                        return None;
+                        // grouped on a JSON member of that name, which never exists: constant NULL
+                        return Some(SqlVal::Null);
                     }
                     return Some(system_value(n, &f.name));
-                }
-                if f.ty == Ty::Base64 && self.quirks.has(Quirk::GroupByBase64Ignored) {
-                    return None;
                 }
                 Some(self.field_sql(n, f, self.quirks.has(Quirk::GroupByRaw)))
             }
@@ -657,10 +667,7 @@ impl<'a> Evaluator<'a> {
         let effective_keys = grouping
             .iter()
             .filter(|s| match s {
-                RSel::Scalar { f, .. } => {
-                    !((f.system && self.quirks.has(Quirk::GroupBySystemIgnored))
-                        || (!f.system && f.ty == Ty::Base64 && self.quirks.has(Quirk::GroupByBase64Ignored)))
-                }
+                RSel::Scalar { f, .. } => !(f.ty == Ty::Base64 && self.quirks.has(Quirk::GroupByBase64Ignored)),
                 _ => false,
             })
             .count();
@@ -673,7 +680,13 @@ impl<'a> Evaluator<'a> {
             let mut obj: Vec<(String, Exp)> = vec![];
             for s in &e.sels {
                 match s {
-                    RSel::Scalar { out, .. } => {
+                    RSel::Scalar { out, f } => {
+                        if members.is_empty() {
+                            // one row over the empty set: the bare column is NULL, the default applies
+                            let (j, b) = if f.system { (J::Null, false) } else { self.default_json(f, true) };
+                            obj.push((out.clone(), Exp::Val(j, b)));
+                            continue;
+                        }
                         // any member of the group (they agree on grouping keys; with a quirk that drops
                         // a key the implementation shows an arbitrary member: accept any)
                         let alts: Vec<Exp> = members
